@@ -1230,7 +1230,7 @@ func c20WaitCancel(r *Run) {
 			k++
 			defer dcancel()
 		}
-		time.Sleep(time.Duration(r.rng.Intn(1+int(slot/20))))
+		time.Sleep(time.Duration(r.rng.Intn(1 + int(slot/20))))
 		for j := len(cancels) - 1; j >= 0; j-- {
 			cancels[j]()
 		}
